@@ -1,8 +1,12 @@
 import PharmpyModel.Core.Codec
 import PharmpyModel.C05.Model
 import PharmpyModel.C05.Matrix
+import PharmpyModel.C05.Collect
 /-
   Line-protocol driver for C05.
+
+  request   (collect ((key coeff) ...))      key = atom, coeff = expression
+  answer    ((key coeffsum) ...)             the monomials regrouped by key (canonical_ode_rhs)
 
   request   (trace (op ...))
   answer    ((status obs) ...)   one entry for the empty builder, then one per operation;
@@ -138,7 +142,15 @@ def trace (ops : List Sexp) : Option (List Sexp) :=
 
 def bad : Sexp := .list [.atom "err", .atom "bad-op"]
 
+def monomial? : Sexp → Option (String × Expr)
+  | .list [.atom k, c] => do some (k, ← Expr.ofSexp? c)
+  | _ => none
+
 def handle : Sexp → Sexp
+  | .list [.atom "collect", .list ms] =>
+    match ms.mapM monomial? with
+    | some ms => .list ((collectBy ms).map (fun g => .list [.atom g.1, g.2.toSexp]))
+    | none => bad
   | .list [.atom "trace", .list ops] =>
     match trace ops with
     | some r => .list r
